@@ -54,13 +54,21 @@ bool g_in_fault = false;
 // identities (inode numbers) of the directories of a re-created subtree, before and after
 std::set<uint64_t> g_old_inodes, g_new_inodes;
 bool g_mixed = false;
-std::set<uint64_t> g_procs_dirs;  // directories whose cgroup.procs was read in this tick
+// (identity, path relative to the cgroup root) of every directory whose cgroup.procs was read in this tick
+std::vector<std::pair<uint64_t, std::string>> g_procs_dirs;
+bool isPrefixPath(const std::string& a, const std::string& b) {  // a == b or a is an ancestor of b
+  return a == b || (b.size() > a.size() && b.compare(0, a.size(), a) == 0 && b[a.size()] == '/');
+}
 void evalMixing() {
-  bool o = false, n = false;
-  for (auto i : g_procs_dirs) {
-    if (g_old_inodes.count(i)) o = true; else if (g_new_inodes.count(i)) n = true;
+  // one victim = one subtree: pids taken from the removed incarnation of a directory and from the new
+  // incarnation of the same directory or of a directory below / above it
+  for (auto& o : g_procs_dirs) {
+    if (!g_old_inodes.count(o.first)) continue;
+    for (auto& n : g_procs_dirs) {
+      if (g_old_inodes.count(n.first) || !g_new_inodes.count(n.first)) continue;
+      if (isPrefixPath(o.second, n.second) || isPrefixPath(n.second, o.second)) g_mixed = true;
+    }
   }
-  if (o && n) g_mixed = true;
   g_procs_dirs.clear();
 }
 
@@ -170,7 +178,7 @@ int openat(int dirfd, const char* path, int flags, ...) {
     if (std::string(path) == "cgroup.procs") {
       struct stat sb;
       // the pids about to be signalled come from this directory (identity = inode)
-      if (::fstat(dirfd, &sb) == 0) g_procs_dirs.insert((uint64_t)sb.st_ino);
+      if (::fstat(dirfd, &sb) == 0) g_procs_dirs.emplace_back((uint64_t)sb.st_ino, fdPath(dirfd).substr(std::min(g_root.size(), fdPath(dirfd).size())));
     }
     if (g_deny.count(abs)) { errno = EACCES; return -1; }
   }
